@@ -132,3 +132,36 @@ Theorem C07_repeat_offers : forall child mn mx st st' root,
   (mx' <> mn -> Has child root g (SK mx')).
 Proof. exact repeat_node_offers. Qed.
 Print Assumptions C07_repeat_offers.
+
+(* every attribute declaration the handler accepts (fixed, typed, or with an inline simple type), with the real
+   recursive parser for its children, at any recursion budget, on any consistently built earlier graph: the node it
+   returns is a choose-one decision; the node created right after it is the "attribute left out" leaf, and in the
+   graph that is returned it is marked valid exactly when use is not "required"; the node after that starts the
+   attribute.  (That the leaf and the start node are the decision's first two children is part of
+   C07_attribute_fixed_fence for fixed declarations; for the others the children handlers run afterwards and the
+   invariant that they only extend successor lists is not proved.) *)
+Theorem C07_attribute_omission_label : forall fuel e parsed p st st' super parsed',
+  gi st -> xpaylen st ->
+  h_attribute (parse_element fuel) e parsed p st = Ok (st', super, parsed') ->
+  let n := xlen st in let g := x_graph st' in
+  super = n /\ n + 3 <= xlen st' /\
+  kind_of g n = KDec false true /\ kind_of g (n + 1) = KLeaf (negb (attr_required e)) /\ kind_of g (n + 2) = KDec false false.
+Proof.
+  intros fuel e parsed p st st' super parsed' G P H.
+  apply (attribute_omission_label (parse_element fuel) e parsed p st st' super parsed'); auto.
+  intros c sp s s' n _ Gs Hs. exact (parse_element_good fuel c sp s s' n Gs Hs).
+Qed.
+Print Assumptions C07_attribute_omission_label.
+
+(* the two numbers _parse_occurs hands to _repeat are the attribute values as written: minOccurs defaults to 1,
+   maxOccurs to 1, "unbounded" is the only non-number, and maxOccurs="0" stays 0 (it is not treated as absent) *)
+Theorem C07_occurs_read : forall a parsed mn mx parsed', parse_occurs a parsed = Ok (mn, mx, parsed') ->
+  (match aget (kw "minOccurs") a with None => mn = 1 | Some s => parse_int s = Some mn end) /\
+  (match aget (kw "maxOccurs") a with
+   | None => mx = Some 1
+   | Some s => if str_eqb s (kw "unbounded") then mx = None else parse_int s = mx /\ mx <> None
+   end).
+Proof. exact parse_occurs_spec. Qed.
+Print Assumptions C07_occurs_read.
+Example C07_occurs_zero : parse_occurs [(kw "minOccurs", kw "0"); (kw "maxOccurs", kw "0")] [] = Ok (0, Some 0, []).
+Proof. vm_compute. reflexivity. Qed.
